@@ -4,7 +4,7 @@ from ._famprop import make
 
 
 def FAMS(tier):
-    base = ["T", "D", "R", "O", "K", "C", "V", "M", "U", "F", "N", "X"]
+    base = ["T", "D", "R", "O", "K", "C", "V", "M", "U", "G", "F", "N", "X"]
     return base if tier == "quick" else base + ["E", "S"]
 
 
